@@ -65,19 +65,22 @@ func runCase(r *mon.Run, engine string, idx int, c caseT) {
 	}
 	x = bk.NewExec(w, viol)
 	x.NoAdmissionVerdicts = true
-	// base state
+	// base state; the unidirectional ID is a small number on purpose: whatever per-request
+	// bookkeeping the broker keeps for /io requests (counters, sequence numbers) must never be
+	// confusable with a callback ID
+	ukey := []string{"u", "1", "2", "3", "0", "4"}[idx%6]
 	var held *bk.Stream
 	switch c.base {
 	case "uni-in-only":
-		x.Connect("in", "u", bk.WFlusher, false)
+		x.Connect("in", ukey, bk.WFlusher, false)
 	case "uni-out-only":
-		x.Connect("out", "u", bk.WFlusher, false)
+		x.Connect("out", ukey, bk.WFlusher, false)
 	case "uni-full":
-		x.Connect("in", "u", bk.WFlusher, false)
-		x.Connect("out", "u", bk.WFlusher, false)
+		x.Connect("in", ukey, bk.WFlusher, false)
+		x.Connect("out", ukey, bk.WFlusher, false)
 	case "uni-tearing":
-		x.Connect("in", "u", bk.WFlusher, false)
-		x.Connect("out", "u", bk.WFlusher, false)
+		x.Connect("in", ukey, bk.WFlusher, false)
+		x.Connect("out", ukey, bk.WFlusher, false)
 		held = x.M.Slot["output"]
 		x.Hold(held)
 		x.End(x.M.Slot["input"], "cancel", "", false)
